@@ -3,6 +3,9 @@
 package cache
 
 // Scheduler hooks: no-ops unless built with the "vsched" tag (and the vsync overlay).
-func verifSpawn()                                             {}
+type verifToken struct{}
+
+func verifSpawn() verifToken                                  { return verifToken{} }
+func verifAdopt(verifToken)                                   {}
 func verifThreadDone()                                        {}
 func verifYieldRecv(events chan *event, stop <-chan struct{}) {}
